@@ -332,7 +332,9 @@ class _Aug(ast.NodeTransformer):
 
     def visit_Assign(self, node):
         self.generic_visit(node)
-        if len(node.targets) == 1 and isinstance(node.value, ast.BinOp) and isinstance(node.targets[0], (ast.Name, ast.Attribute, ast.Subscript)) \
+        # plain names only: for an attribute / subscript target the two forms differ when the object is a shared array
+        # (`t.zero_point *= 0` edits the array every alias sees, `t.zero_point = t.zero_point * 0` binds a new one)
+        if len(node.targets) == 1 and isinstance(node.value, ast.BinOp) and isinstance(node.targets[0], ast.Name) \
                 and isinstance(node.value.op, (ast.Add, ast.Sub, ast.Mult, ast.FloorDiv, ast.BitOr, ast.BitAnd, ast.LShift, ast.RShift)):
             t = node.targets[0]
             if ast.dump(t).replace("Store()", "Load()") == ast.dump(node.value.left):
